@@ -31,8 +31,25 @@ def slack_for(q):
     return 2
 
 
+def norm_boundary_k(rng, q):
+    """k = +-1/m (or +-a/m with tiny a) with m chosen so that floor(q/m)^2 -- the squared norm of a basis vector met during the
+    reduction -- sits just above / below a power of two on a limb boundary (the sign bit or the top bit of the multi-limb norms):
+    the comparisons and sign tests of the reduction see exactly 0x8000...0 in their top limb, and for moduli close to 2^256 the
+    shortest vector has a coordinate at +-2^127 / +-2^128, where the 128-bit truncation of the result bites."""
+    e = rng.choice([32 * j + d for j in range(4, 2 * q.bit_length() // 32 + 1) for d in (-1, 0)])
+    T = (1 << e) + rng.choice([0, 1, rng.getrandbits(max(1, e - 33)), -1, -rng.getrandbits(max(1, e - 33))])
+    s_ = math.isqrt(max(T, 4))
+    m = q // s_ + rng.choice([0, 0, 1, -1])
+    if m < 2 or m % q == 0:
+        m = 3
+    a = rng.choice([1, 1, 1, -1, -1, 2, 3])
+    return a * pow(m, -1, q) % q, "norm-at-power-of-two"
+
+
 def hostile_k(rng, q):
-    t = rng.randrange(12)
+    t = rng.randrange(13)
+    if t == 12:
+        return norm_boundary_k(rng, q)
     if t < 5:
         # rationals a/b on the whole (bits a, bits b) grid: unbalanced lattices
         ba = rng.randrange(1, 131)
@@ -267,7 +284,8 @@ def main(argv):
         m = run_rounds(1 if a.tier == "quick" else 3, "c11", "gen", (n1 // NCPU + 1, n2 // NCPU + 1), [(c, exes[c]) for c in cfgs], a.seed, timeout=3600,
                        split=1 if a.tier == "quick" else 2, count_idx=(0, 1))
         rep.merge(m)
-        rep.require("sc25519:rational", "scp256:rational", "sc448:rational", "sc448:convergent", "g512:rational", "g127:rational",
+        rep.require("scp256:norm-at-power-of-two", "scsecp:norm-at-power-of-two", "sc25519:norm-at-power-of-two", "mi_spec3:norm-at-power-of-two", "sc448:norm-at-power-of-two",
+                    "sc25519:rational", "scp256:rational", "sc448:rational", "sc448:convergent", "g512:rational", "g127:rational",
                     "jq255e:assembled-halves", "secp256k1:rounding-boundary", "gls254:assembled-halves", "gls254odd:random", "jq255e:limb-rounding-boundary", "gls254:limb-rounding-boundary", "secp256k1:limb-rounding-boundary",
                     "rational(L,s)", "rational(s,L)", "rational(s,s)", "rational(L,L)", "slack=0", "slack=1", "slack=2", "extreme")
     except Inconclusive as e:
